@@ -293,6 +293,7 @@ struct Run {
             ret = binson_parser_field_with_length(p, NULL, s.u8() % 4); has_ret = true; advancing = true;
             break;
         }
+#ifdef BINSON_PARSER_WITH_PRINT
         case A_PRINT: {
             note(kOp[op]);
             fflush(stdout);
@@ -322,6 +323,13 @@ struct Run {
             restart = true;
             break;
         }
+#else
+        case A_PRINT:
+        case A_TO_STRING:
+            note("get_depth");
+            ob("depth", binson_parser_get_depth(p));
+            break;
+#endif
         default: break;
         }
         if (measure) { p->cb = NULL; p->cb_context = NULL; }
